@@ -336,6 +336,27 @@ def parentField (parent : Body) (pv : Value) (k : String) : Option Nat :=
 def violated (parent : Body) (pv : Value) (cs : List (String × Nat)) : Bool :=
   cs.any fun (k, cv) => parentField parent pv k != some cv
 
+/-- `Child::decode_partial(&parent)`: check this level's constraints on the parent value,
+    parse the own fields (`decOwn`) from the parent's payload (all of it), copy the remaining
+    fields -/
+def decPartialWith (decOwn : Bytes → Dec (DState × Bytes)) (parent : Body) (cs : List (String × Nat))
+    (pv : Value) : Dec Value :=
+  let pf := pv.fields
+  if violated parent pv cs then .err .constraintValue
+  else
+    let copied := pf.filter fun (k, _) => k != "payload" && !(cs.any (·.1 == k))
+    if parent.hasPayload then
+      let pbytes : Bytes := match pf.lookup "payload" with
+        | some (.arr vs) => vs.map fun v => UInt8.ofNat ((v.asNat?).getD 0)
+        | _ => []
+      (decOwn pbytes).bind fun (st, rest) =>
+        if rest.isEmpty then
+          .ok (.obj (st.fields ++ copied ++ (match st.payload with
+                               | some p => [("payload", Value.ofBytes p)]
+                               | none => [])))
+        else .err .trailingBytes
+    else .ok (.obj copied)
+
 /-! ### The decoder -/
 
 /-- `count * width` on `usize`: panics (overflow checks on) in the emitted code; the
@@ -516,28 +537,13 @@ def decBody (c : Cfg) : Body → Bytes → Dec (Value × Bytes)
                                | none => [])), r)
   | .derived _ parent cs _ items, bs =>
     (decBody c parent bs).bind fun (pv, r) =>
-      (decPartial c parent cs items pv).bind fun v => .ok (v, r)
+      (decPartialWith (fun bs => decItems c items bs DState.empty) parent cs pv).bind fun v => .ok (v, r)
 
-/-- `Child::decode_partial(&parent)`: check this level's constraints on the parent value,
-    parse the own fields from the parent's payload (all of it), copy the remaining fields -/
-def decPartial (c : Cfg) (parent : Body) (cs : List (String × Nat)) (items : Items) (pv : Value) :
-    Dec Value :=
-  let pf := pv.fields
-  if violated parent pv cs then .err .constraintValue
-  else
-    let copied := pf.filter fun (k, _) => k != "payload" && !(cs.any (·.1 == k))
-    if parent.hasPayload then
-      let pbytes : Bytes := match pf.lookup "payload" with
-        | some (.arr vs) => vs.map fun v => UInt8.ofNat ((v.asNat?).getD 0)
-        | _ => []
-      (decItems c items pbytes DState.empty).bind fun (st, rest) =>
-        if rest.isEmpty then
-          .ok (.obj (st.fields ++ copied ++ (match st.payload with
-                               | some p => [("payload", Value.ofBytes p)]
-                               | none => [])))
-        else .err .trailingBytes
-    else .ok (.obj copied)
 end
+
+/-- `Child::decode_partial(&parent)` for a child with the given own items -/
+def decPartial (c : Cfg) (parent : Body) (cs : List (String × Nat)) (items : Items) (pv : Value) : Dec Value :=
+  decPartialWith (fun bs => decItems c items bs DState.empty) parent cs pv
 
 /-- `Packet::decode_full` (pdl-runtime) -/
 def decodeFull (c : Cfg) (b : Body) (bs : Bytes) : Dec Value :=
@@ -693,6 +699,13 @@ def encChunkFields (ideal : Bool) (items : Items) (payloadLen : Nat) (v : Value)
         if (ideal ∨ w < 64) ∧ vs.length > maskBits w then .err .countOverflow
         else next (vs.length % 2 ^ backingOf w)
 
+/-- the reference rejects an array element beyond its declared width; the emitted code has no
+    such check (`put_uint` keeps the low bits) -/
+def elemOutOfRange (m : Mode) (w x : Nat) : Bool :=
+  match m with
+  | .ideal => decide (x > maskBits w)
+  | .rust => false
+
 /-- a static count is a Rust array type `[T; N]`: a value of another length does not exist -/
 def checkCount (shape : Shape) (len : Nat) : Enc Unit :=
   match shape with
@@ -729,7 +742,7 @@ def encTy (c : Cfg) : Ty → Value → Enc Bytes
     | .int x =>
       if x ≥ 2 ^ backingOf w then .panic .badValue
       -- array elements get no range check in the emitted code: `put_uint` keeps the low w bits
-      else if c.mode == .ideal ∧ x > maskBits w then .err .invalidScalarValue
+      else if elemOutOfRange c.mode w x then .err .invalidScalarValue
       else .ok (putUint c.e w x)
     | _ => .panic .badValue
   | .enumTy _ en, v =>
